@@ -90,7 +90,7 @@ EXPORT errno_t _strfirstchar_s_chk(char *dest, rsize_t dmax, char c,
         CHK_DEST_OVR("strfirstchar_s", destbos)
     }
 
-    while (*dest && dmax) {
+    while (dmax && *dest) {
 
         if (*dest == c) {
             *firstp = dest;
